@@ -189,12 +189,14 @@ Proof.
   pose proof (heap_root_min h O p L) as M. rewrite (has_key _ _ _ _ S0), (has_key _ _ _ _ Hp) in M. exact M.
 Qed.
 
-Theorem dijkstra_inv : forall fuel st st' l, J st -> dijkstra fuel e rf rb st = Some (st', l) -> Post st' l.
+Lemma J_step st u du h1 st3 st4 :
+  J st -> slot (sp_h st) 0 = Some (u, du) -> heap_remove_first (sp_h st) = Some h1 ->
+  relax_fwd u du {| sp_h := h1; sp_d := upd (sp_d st) u (fun _ => du); sp_prev := sp_prev st;
+                    sp_final := upd (sp_final st) u (fun _ => true) |} (nth u rf []) = Some st3 ->
+  relax_bwd u du st3 (nth u rb []) = Some st4 -> J st4.
 Proof.
-  induction fuel as [|f IH]; intros st st' l Jst; cbn [dijkstra]; [discriminate|].
+  intros Jst S0 ER E3 E4.
   destruct Jst as [H [LD [LF [J2 [J2' [J3 [J4 J6]]]]]]].
-  destruct (oget (fst (sp_h st)) 0) as [[u du]|] eqn:E0; [|discriminate]. cbn [bind fst snd].
-  assert (S0 : slot (sp_h st) 0 = Some (u, du)) by exact E0.
   assert (HU : has (sp_h st) u du) by (exists O; auto).
   destruct (J2' u (has_entry _ _ _ HU)) as [FU LU].
   pose proof (root_min _ _ _ H S0) as RM.
@@ -208,30 +210,9 @@ Proof.
     assert (E : (u <? length (sp_final st))%nat = true) by (apply Nat.ltb_lt; lia). rewrite E, andb_true_r. reflexivity. }
   (* facts about old finalised nodes *)
   assert (OLD : forall a, fn st a = true -> dd st a <= du) by (intros a Fa; eapply J4; eauto).
-  destruct (nz e u <? 0) eqn:EX.
-  - (* early exit at the deficit node u *)
-    intros X. injection X as <- <-. fold st1.
-    split; [rewrite F1, Nat.eqb_refl; auto|]. split; auto.
-    split; [|split].
-    + intros a b rc Rab Fa Fb. rewrite F1 in Fa, Fb. rewrite !D1. destruct (RA _ _ _ Rab) as [_ R0].
-      destruct (a =? u)%nat eqn:Ea; destruct (b =? u)%nat eqn:Eb.
-      * lia.
-      * pose proof (OLD b Fb). lia.
-      * apply Nat.eqb_eq in Eb. subst b. destruct (J3 a u rc Fa Rab) as [_ K]. apply K. auto.
-      * destruct (J3 a b rc Fa Rab) as [K _]. apply K. auto.
-    + intros a b rc Rab Fa Fb. rewrite F1 in Fa, Fb. rewrite !D1, Nat.eqb_refl. destruct (RA _ _ _ Rab) as [Lb R0].
-      destruct (b =? u)%nat eqn:Eb; [discriminate|].
-      destruct (a =? u)%nat eqn:Ea; [lia|].
-      destruct (entry_has _ _ (J2 b Lb Fb)) as [k Hk].
-      destruct (J3 a b rc Fa Rab) as [_ K]. specialize (K k Hk). specialize (RM b k Hk). lia.
-    + intros v Fv. rewrite F1 in Fv. rewrite !D1, Nat.eqb_refl. destruct (v =? u)%nat; [lia|apply OLD; auto].
-  - (* u is removed from the heap and its arcs are relaxed *)
-    destruct (heap_remove_first (sp_h st1)) as [h1|] eqn:ER; [|discriminate]. cbn [bind].
-    set (st2 := {| sp_h := h1; sp_d := sp_d st1; sp_prev := sp_prev st1; sp_final := sp_final st1 |}).
-    destruct (relax_fwd u du st2 (nth u rf [])) as [st3|] eqn:E3; [|discriminate]. cbn [bind].
-    destruct (relax_bwd u du st3 (nth u rb [])) as [st4|] eqn:E4; [|discriminate]. cbn [bind].
-    destruct (fst (sp_h st4)) eqn:NE; [discriminate|]. intros X. apply (IH st4 st' l); auto. clear X NE.
-    change (sp_h st1) with (sp_h st) in ER.
+  set (st2 := {| sp_h := h1; sp_d := sp_d st1; sp_prev := sp_prev st1; sp_final := sp_final st1 |}).
+  change {| sp_h := h1; sp_d := upd (sp_d st) u (fun _ => du); sp_prev := sp_prev st;
+            sp_final := upd (sp_final st) u (fun _ => true) |} with st2 in E3.
     destruct H as [O [P [EO LN]]].
     destruct (heap_remove_first_mem _ _ _ _ P S0 ER) as [M1 [M2 M3]].
     assert (Hn : (0 < hsize (sp_h st))%nat) by (eapply slot_lt; eauto).
@@ -295,5 +276,121 @@ Proof.
       * apply Nat.eqb_neq in Ev. destruct (J6 v Fv) as [p [Tp Lp]]. exists p.
         assert (NEv : ~ is_entry (sp_h st) v) by (intros X; destruct (J2' v X); congruence).
         rewrite T4 by (rewrite EN1; tauto). rewrite M3 by auto. split; auto. lia.
+Qed.
+
+Lemma J_step_facts st u du h1 st3 st4 :
+  J st -> slot (sp_h st) 0 = Some (u, du) -> heap_remove_first (sp_h st) = Some h1 ->
+  relax_fwd u du {| sp_h := h1; sp_d := upd (sp_d st) u (fun _ => du); sp_prev := sp_prev st;
+                    sp_final := upd (sp_final st) u (fun _ => true) |} (nth u rf []) = Some st3 ->
+  relax_bwd u du st3 (nth u rb []) = Some st4 ->
+  (forall w, dd st4 w = if (w =? u)%nat then du else dd st w) /\
+  (forall w, fn st4 w = if (w =? u)%nat then true else fn st w) /\
+  HI h1 /\ TF h1 /\ HI (sp_h st3) /\ TF (sp_h st3) /\
+  (forall w k, has h1 w k <-> (has (sp_h st) w k /\ w <> u)) /\
+  (forall w, is_entry (sp_h st3) w <-> is_entry h1 w) /\
+  fn st u = false /\ (u < nv)%nat.
+Proof.
+  intros Jst S0 ER E3 E4.
+  destruct Jst as [H [LD [LF [J2 [J2' [J3 [J4 J6]]]]]]].
+  assert (HU : has (sp_h st) u du) by (exists O; auto).
+  destruct (J2' u (has_entry _ _ _ HU)) as [FU LU].
+  pose proof (root_min _ _ _ H S0) as RM.
+  set (st1 := {| sp_h := sp_h st; sp_d := upd (sp_d st) u (fun _ => du); sp_prev := sp_prev st;
+                 sp_final := upd (sp_final st) u (fun _ => true) |}).
+  assert (D1 : forall w, dd st1 w = if (w =? u)%nat then du else dd st w).
+  { intros w. unfold dd, st1. cbn [sp_d]. rewrite nz_upd_local. rewrite (Nat.eqb_sym w u).
+    assert (E : (u <? length (sp_d st))%nat = true) by (apply Nat.ltb_lt; lia). rewrite E, andb_true_r. reflexivity. }
+  assert (F1 : forall w, fn st1 w = if (w =? u)%nat then true else fn st w).
+  { intros w. unfold fn, fin, st1. cbn [sp_final]. rewrite (nth_upd_local (fun _ => true) false). rewrite (Nat.eqb_sym w u).
+    assert (E : (u <? length (sp_final st))%nat = true) by (apply Nat.ltb_lt; lia). rewrite E, andb_true_r. reflexivity. }
+  (* facts about old finalised nodes *)
+  assert (OLD : forall a, fn st a = true -> dd st a <= du) by (intros a Fa; eapply J4; eauto).
+  set (st2 := {| sp_h := h1; sp_d := sp_d st1; sp_prev := sp_prev st1; sp_final := sp_final st1 |}).
+  change {| sp_h := h1; sp_d := upd (sp_d st) u (fun _ => du); sp_prev := sp_prev st;
+            sp_final := upd (sp_final st) u (fun _ => true) |} with st2 in E3.
+    destruct H as [O [P [EO LN]]].
+    destruct (heap_remove_first_mem _ _ _ _ P S0 ER) as [M1 [M2 M3]].
+    assert (Hn : (0 < hsize (sp_h st))%nat) by (eapply slot_lt; eauto).
+    destruct (heap_remove_first_ord _ _ O Hn ER) as [O1 SZ1].
+    pose proof (heap_remove_first_pos _ _ P ER) as P1.
+    destruct (heap_remove_first_safe _ EO Hn) as [h1' [ER' [_ [LN1 EO1]]]]. rewrite ER in ER'. injection ER' as <-.
+    assert (H1 : HI h1) by (repeat split; auto; lia).
+    assert (NU1 : ~ is_entry h1 u) by (intros X; destruct (entry_has _ _ X) as [k Hk]; apply M1 in Hk; tauto).
+    assert (EN1 : forall w, is_entry h1 w <-> (is_entry (sp_h st) w /\ w <> u)).
+    { intros w. split.
+      - intros X. destruct (entry_has _ _ X) as [k Hk]. apply M1 in Hk. destruct Hk as [A B]. split; auto. eapply has_entry; eauto.
+      - intros [X N]. destruct (entry_has _ _ X) as [k Hk]. eapply has_entry. apply M1. split; eauto. }
+    assert (TF1 : TF h1).
+    { intros v Hv. destruct (Nat.eq_dec v u) as [->|N].
+      - right. split; auto. exists (hsize (sp_h st) - 1)%nat. split; auto. lia.
+      - destruct (fn st v) eqn:Fv.
+        + right. assert (NEv : ~ is_entry (sp_h st) v) by (intros X; destruct (J2' v X); congruence).
+          split; [rewrite EN1; tauto|]. destruct (J6 v Fv) as [p [Tp Lp]]. exists p. rewrite M3 by auto. split; auto. lia.
+        + left. apply EN1. split; auto. }
+    assert (A3 : forall v rc, In (v, rc) (nth u rf []) -> (v < nv)%nat /\ 0 <= rc)
+      by (intros v rc Hin; apply (RA u v rc); left; auto).
+    assert (A4 : forall v rc cap, In (v, rc, cap) (nth u rb []) -> 0 < cap -> (v < nv)%nat /\ 0 <= rc)
+      by (intros v rc cap Hin Hc; apply (RA u v rc); right; exists cap; auto).
+    destruct (relax_fwd_spec u du _ st2 st3 H1 TF1 A3 E3) as [D3 [F3 [R3 B3]]].
+    assert (H3 : HI (sp_h st3)) by (destruct R3; auto).
+    assert (TF3 : TF (sp_h st3)) by (eapply Rel_TF; eauto).
+    destruct (relax_bwd_spec u du _ st3 st4 H3 TF3 A4 E4) as [D4 [F4 [R4 B4]]].
+    pose proof (Rel_trans _ _ _ _ R3 R4) as R. change (sp_h st2) with h1 in R.
+    destruct R as [H4 [SZ4 [EN4 [T4 K4]]]].
+    assert (DD : forall w, dd st4 w = dd st1 w) by (intros w; unfold dd; rewrite D4, D3; reflexivity).
+    assert (FF : forall w, fn st4 w = fn st1 w) by (intros w; unfold fn; rewrite F4, F3; reflexivity).
+    (* keys after the relaxations, in terms of the heap before the pop *)
+    assert (KEY : forall w k, has (sp_h st4) w k -> w <> u /\ du <= k /\ exists k0, has (sp_h st) w k0 /\ k <= k0).
+    { intros w k Hk. destruct (K4 w k Hk) as [k0 [A0 [B0 C0]]]. apply M1 in A0. destruct A0 as [A0 Nw].
+      split; auto. split; [destruct C0 as [->|C0]; [eapply RM; eauto|auto]|]. exists k0. auto. }
+    split; [intros w; rewrite DD; apply D1|]. split; [intros w; rewrite FF; apply F1|].
+    split; auto. split; auto. split; auto. split; auto. split; auto.
+    split; [destruct R3 as [_ [_ [X _]]]; exact X|]. split; auto.
+Qed.
+
+Theorem dijkstra_inv : forall fuel st st' l, J st -> dijkstra fuel e rf rb st = Some (st', l) -> Post st' l.
+Proof.
+  induction fuel as [|f IH]; intros st st' l Jst; cbn [dijkstra]; [discriminate|].
+  pose proof Jst as Jst0. destruct Jst as [H [LD [LF [J2 [J2' [J3 [J4 J6]]]]]]].
+  destruct (oget (fst (sp_h st)) 0) as [[u du]|] eqn:E0; [|discriminate]. cbn [bind fst snd].
+  assert (S0 : slot (sp_h st) 0 = Some (u, du)) by exact E0.
+  assert (HU : has (sp_h st) u du) by (exists O; auto).
+  destruct (J2' u (has_entry _ _ _ HU)) as [FU LU].
+  pose proof (root_min _ _ _ H S0) as RM.
+  set (st1 := {| sp_h := sp_h st; sp_d := upd (sp_d st) u (fun _ => du); sp_prev := sp_prev st;
+                 sp_final := upd (sp_final st) u (fun _ => true) |}).
+  assert (D1 : forall w, dd st1 w = if (w =? u)%nat then du else dd st w).
+  { intros w. unfold dd, st1. cbn [sp_d]. rewrite nz_upd_local. rewrite (Nat.eqb_sym w u).
+    assert (E : (u <? length (sp_d st))%nat = true) by (apply Nat.ltb_lt; lia). rewrite E, andb_true_r. reflexivity. }
+  assert (F1 : forall w, fn st1 w = if (w =? u)%nat then true else fn st w).
+  { intros w. unfold fn, fin, st1. cbn [sp_final]. rewrite (nth_upd_local (fun _ => true) false). rewrite (Nat.eqb_sym w u).
+    assert (E : (u <? length (sp_final st))%nat = true) by (apply Nat.ltb_lt; lia). rewrite E, andb_true_r. reflexivity. }
+  (* facts about old finalised nodes *)
+  assert (OLD : forall a, fn st a = true -> dd st a <= du) by (intros a Fa; eapply J4; eauto).
+  destruct (nz e u <? 0) eqn:EX.
+  - (* early exit at the deficit node u *)
+    intros X. injection X as <- <-. fold st1.
+    split; [rewrite F1, Nat.eqb_refl; auto|]. split; auto.
+    split; [|split].
+    + intros a b rc Rab Fa Fb. rewrite F1 in Fa, Fb. rewrite !D1. destruct (RA _ _ _ Rab) as [_ R0].
+      destruct (a =? u)%nat eqn:Ea; destruct (b =? u)%nat eqn:Eb.
+      * lia.
+      * pose proof (OLD b Fb). lia.
+      * apply Nat.eqb_eq in Eb. subst b. destruct (J3 a u rc Fa Rab) as [_ K]. apply K. auto.
+      * destruct (J3 a b rc Fa Rab) as [K _]. apply K. auto.
+    + intros a b rc Rab Fa Fb. rewrite F1 in Fa, Fb. rewrite !D1, Nat.eqb_refl. destruct (RA _ _ _ Rab) as [Lb R0].
+      destruct (b =? u)%nat eqn:Eb; [discriminate|].
+      destruct (a =? u)%nat eqn:Ea; [lia|].
+      destruct (entry_has _ _ (J2 b Lb Fb)) as [k Hk].
+      destruct (J3 a b rc Fa Rab) as [_ K]. specialize (K k Hk). specialize (RM b k Hk). lia.
+    + intros v Fv. rewrite F1 in Fv. rewrite !D1, Nat.eqb_refl. destruct (v =? u)%nat; [lia|apply OLD; auto].
+  - (* u is removed from the heap and its arcs are relaxed *)
+    destruct (heap_remove_first (sp_h st1)) as [h1|] eqn:ER; [|discriminate]. cbn [bind].
+    set (st2 := {| sp_h := h1; sp_d := sp_d st1; sp_prev := sp_prev st1; sp_final := sp_final st1 |}).
+    destruct (relax_fwd u du st2 (nth u rf [])) as [st3|] eqn:E3; [|discriminate]. cbn [bind].
+    destruct (relax_bwd u du st3 (nth u rb [])) as [st4|] eqn:E4; [|discriminate]. cbn [bind].
+    destruct (fst (sp_h st4)) eqn:NE; [discriminate|]. intros X. apply (IH st4 st' l); auto. clear X NE.
+    change (sp_h st1) with (sp_h st) in ER.
+    exact (J_step st u du h1 st3 st4 Jst0 S0 ER E3 E4).
 Qed.
 End Dijkstra.
